@@ -3,6 +3,14 @@
 import json, subprocess
 
 CHECKS = {
+ "C16": dict(category="exploration", design="§3 C16",
+   text="Enumerated programs (all nestings to depth 2/3 with scoping/control features and trace globals; every well-typed expression tree with <= 2 operators assigned to a global; constructs the compiler may not know; non-ASCII strings; map insertion order; element stores with bad indices; nested composites and repetition) are compiled; a compile error is accepted; otherwise no statement may be left without code and after VM.Run every global has the value the tree-walking evaluator computes (repr form via the verif hook), or both fail correspondingly (division/modulo by zero only on the VM).",
+   note="The evaluator is the reference (itself checked against the specification by C01/C09-C12). Recorded finding: map key insertion order on the VM.",
+   technique="bounded-exhaustive enumeration of programs, differential between the two execution engines through a read-only hook"),
+ "C17": dict(category="model_checking", design="§3 C17",
+   text="For every compiled program of the C16 family plus scaled programs crossing each 16-bit operand (65535/65536/65537) and nesting 1..70: a static verifier explores the emitted control-flow graph over (ip, stack height) - known opcodes, operands and jump targets in range and on boundaries, one height per ip, no underflow, empty at the end - and VM.Run must not panic and must leave sp = LocalCount. Explicit-state BFS over all SymbolTable operation sequences to depth 6 (quick) / 8 (thorough) checks slot distinctness of live locals, innermost resolution and the high-water mark.",
+   note="Opcode stack effects are taken from code.go/vm.go (no other specification). Exceeding StackSize is the VM's own guarded error, not judged as ill-formed.",
+   technique="explicit-state exploration of the emitted CFG (ip x stack height) and BFS over symbol-table histories on the real code"),
  "C13": dict(category="exploration", design="§3 C13",
    text="Every non-graphics built-in x all argument tuples from value classes, compared with reference built-ins written from docs/builtins.md (rune-wise string functions, err/errmsg protocol, verbs, typeof, test/exit/panic); explicit-state search of the err/errmsg protocol (all histories to depth 4/5); all sequences of <= 2/3 test/exit/panic calls x FailFast x NoTestSummary incl. counts, summary and the binary's exit status; rand/rand1 range laws for every n class x 8 seeds x 64 draws; all value shapes x documented verbs x flags x width x precision; all documented examples with recorded output.",
    note="Undocumented behaviour (other verbs, wrong argument counts, %s/%q of composites, replace with empty pattern) is not judged. Math functions are compared with Go's math. Recorded findings: printf verb mismatch does not panic; rand 0.5 panics.",
